@@ -39,6 +39,7 @@ def setup(rep, tier):
     rep.minimum('R07.8', 2)
     rep.minimum('R07.9', 1)
     rep.minimum('R07.10', 1)
+    rep.minimum('R07.11', 1)
 
 
 def rooted_at_param(f, lv, pidx):
@@ -591,7 +592,40 @@ def r07_10(rep, prog):
         rep.holds('R07.10', inst, f.where(), 'the size does not depend on carried-over extension bytes')
 
 
+# ------------------------------------------------------------------ R07.11
+def r07_11(rep, prog):
+    """padding works in place: opus_packet_pad_impl saves the packet, then lets out_range_impl write the padded form
+    over it.  out_range_impl may store header bytes before its last size check (harmless for a separate output buffer),
+    so when it refuses, the in-place caller must put the saved packet back: after the call, under `ret < 0`, the saved
+    copy is copied back over `data`.  Otherwise a refused pad leaves a corrupted packet behind an error code."""
+    f = prog.fn('opus_packet_pad_impl')
+    rep.functions.add(f.name)
+    cf = cfgm.CFG(f)
+    pd = f.param_index('data')
+    calls = [(b, i, c) for b, i, c in T.calls_to(cf, 'opus_repacketizer_out_range_impl') if any(sx.key(sx.strip(a)) == ('param', pd) for a in c[2])]
+    inst = '%s:opus_packet_pad_impl restores the packet when the padded form is refused' % prog.config
+    if not calls:
+        rep.unresolved('R07.11', inst + ': in-place call of out_range_impl not found')
+        return
+    cb, ci, cc = calls[0]
+    # the local buffer the packet was saved into
+    saves = [sx.strip(c[2][0]) for b, i, c in T.calls_to(cf, ('memcpy', 'memmove')) if sx.kind(sx.strip(c[2][0])) == 'local' and sx.key(sx.strip(c[2][1])) == ('param', pd)]
+    backs = []
+    for b, i, c in T.calls_to(cf, ('memcpy', 'memmove')):
+        if sx.key(sx.strip(c[2][0])) == ('param', pd) and any(sx.key(sx.strip(c[2][1])) == sx.key(sv) for sv in saves) and (b == cb and i > ci or b in cf.reachable_from(cb)):
+            facts = T.stable_facts(cf, b, i)
+            if any(a[0] == '<' and isinstance(a[1], tuple) and a[1][0] == 'local' and a[2] == ('int', 0) for a in facts):
+                backs.append((b, i, c))
+    where = '%s:%s' % (f.file, sx.line(cc))
+    if backs:
+        rep.holds('R07.11', inst, where, 'copy-back `%s` under a negative result' % sx.show(backs[0][2])[:60])
+    else:
+        rep.violated('R07.11', inst, where, 'out_range_impl writes over the caller\'s packet and can still refuse (it stores header bytes before its last size check); no copy-back of the saved packet follows under `ret < 0`: '
+                     'a refused opus_packet_pad leaves the buffer corrupted', key='pad-in-place-no-restore')
+
+
 def check(rep, prog, tier):
+    r07_11(rep, prog)
     r07_10(rep, prog)
     r07_9(rep, prog)
     r07_78(rep, prog)
